@@ -50,3 +50,13 @@ func HugeDB(r *rand.Rand, n, tail int) (*database.Database, []Cmd) {
 	}
 	return db, cmds
 }
+
+// IsASCII reports whether s holds bytes below 0x80 only.
+func IsASCII(s string) bool {
+	for i := 0; i < len(s); i++ {
+		if s[i] >= 0x80 {
+			return false
+		}
+	}
+	return true
+}
